@@ -568,6 +568,51 @@ def seqHypB (e : PlayEnv) (ep chain : Nat) (ctl0 : List Nat) (info0 : List OrdIn
       (decide (e.ctl.getD m.rst 0xff = chain) == decide (r.ctl.getD m.rst 0xff = chain))) &&
     decide ((e.info.getD o1 {}).speed = m.spd) && decide ((e.info.getD o1 {}).bpm = m.bpm)
 
+/-! ## `FX_SPEED` (MOD / XM `Fxx`) and the VBlank flag
+
+`Fxx` is a speed or a tempo.  Both `scan.c` (FX_SPEED block of `scan_module`) and `effects.c`
+(`case FX_SPEED`) decide it the same way: a speed if `HAS_QUIRK(QUIRK_NOBPM)`, or the module's flag word
+`p->flags` has `XMP_FLAGS_VBLANK`, or the parameter is below 0x20; a tempo otherwise; nothing for
+parameter 0.  The flag word can change at run time (`xmp_set_player(XMP_PLAYER_CFLAGS, …)`, which rescans)
+or come from `XMP_PLAYER_FLAGS` / the quirk table at load time.  `RawMod` keeps `Fxx` undecoded; the scan
+and the player each decode it with the flag they read (`XmpModel/Gen/C18Flags.lean`, generated from the C,
+records that both read the same word). -/
+
+/-- `FX_SPEED` with parameter `p`, decoded with `speedOnly = QUIRK_NOBPM || flags & XMP_FLAGS_VBLANK` -/
+def decodeFxSpeed (speedOnly : Bool) (p : Nat) : Fx :=
+  if p = 0 then .none else if speedOnly || decide (p < 0x20) then .speed p else .tempo p
+
+/-- a pattern row before the `FX_SPEED` decision -/
+inductive RawFx where
+  | fx (f : Fx)
+  | fspeed (p : Nat)
+  deriving Repr, DecidableEq, Inhabited
+
+def RawFx.decode (speedOnly : Bool) : RawFx → Fx
+  | .fx f => f
+  | .fspeed p => decodeFxSpeed speedOnly p
+
+/-- the loaded module with `Fxx` undecoded; `nobpm` = `HAS_QUIRK(QUIRK_NOBPM)` -/
+structure RawMod where
+  xxo : List Nat
+  pats : List (List RawFx)
+  rst : Nat
+  spd : Nat
+  bpm : Nat
+  marker : Bool
+  nobpm : Bool
+  deriving Repr, Inhabited
+
+/-- the module as an interpreter that reads the flag value `vblank` sees it -/
+def RawMod.decode (rm : RawMod) (vblank : Bool) : LinMod :=
+  { xxo := rm.xxo, pats := rm.pats.map fun p => p.map (RawFx.decode (rm.nobpm || vblank)),
+    rst := rm.rst, spd := rm.spd, bpm := rm.bpm, marker := rm.marker }
+
+/-- `libxmp_scan_sequences` reading the flag value `vbScan`, and the player environment of its sequence `k`
+for a player that reads the flag value `vbPlay` (the code must make these the same word) -/
+def RawMod.env (rm : RawMod) (vbScan vbPlay : Bool) (k : Nat) : PlayEnv :=
+  { (scanSequences (rm.decode vbScan)).env (rm.decode vbScan) k with m := rm.decode vbPlay }
+
 /-- `seqLoop` again, recording for every accepted sequence the entry point and the
 `sequence_control` / `xxo_info` its scan started from (`n` = number of sequences accepted so far) -/
 def seqLoopPre (m : LinMod) : Nat → Nat → List Nat → List OrdInfo → List (Nat × List Nat × List OrdInfo)
